@@ -262,6 +262,19 @@ pub fn run(ctx: &Ctx) -> i32 {
         st.count("boundary_code_point_sets");
         check_case(ctx, st, tcs, Settings::new(m | surr));
     });
+    // periods nested 3-5 levels deep whose innermost unit is non-ASCII
+    {
+        let inner = ["\u{e4}", "\u{1f4a9}", "\u{ffff}", "\u{10000}", "\u{3b1}"];
+        par_for(&ctx.run, inner.len() * 3 * 4, |i, st| {
+            let mut rng = Rng::new(seed, 0x112_0000 + i as u64);
+            let x = inner[i % inner.len()].to_string();
+            let depth = 3 + (i / inner.len()) % 3;
+            let t = gen::nested_periods(&mut rng, &[x.clone(), "b".to_string(), x, "c".to_string()], depth);
+            let f = [REP, REP | SURR, REP | VERB, REP | CAP][i / (inner.len() * 3)];
+            st.count("deeply_nested_non_ascii");
+            check_case(ctx, st, &[t], Settings::new(f));
+        });
+    }
     let det = gen::cluster_repeat_cases();
     let det_settings = [REP, REP | SURR, REP | VERB, REP | CAP | SURR, 0, REP | DIGIT, REP | NOEND];
     par_for(&ctx.run, det.len() * det_settings.len(), |i, st| {
